@@ -155,6 +155,9 @@ class GZip {
       stream_.zfree = Z_NULL;
       stream_.opaque = Z_NULL;
       stream_.msg = NULL;
+      // deflate() reads these even when finishing a stream that was never given input.
+      stream_.next_in = Z_NULL;
+      stream_.avail_in = 0;
     }
 
     void SetOutput(void *to, std::size_t amount) {
